@@ -127,7 +127,8 @@ def check_bool(inp):
     return None
 
 
-CHECKS = {'pair': check_pair, 'clone': check_clone, 'bool': check_bool}
+CHECKS = {'deep': lambda inp: (lambda r: None if r == 'recursion' else r)(check_deep(inp)),
+          'pair': check_pair, 'clone': check_clone, 'bool': check_bool}
 
 
 def replay(ctx, rec):
@@ -217,6 +218,73 @@ def shared_shard(st, shard, nshards, payload):
                     return
             if i % 997 == 0:
                 st.sample({'logic': logic, 'f': f, 'g': g, 'share': 'a'}, cls='shared-' + logic)
+
+
+def check_deep(inp):
+    """Formulas nested k deep that differ only in the INNERMOST leaf (or in their length by one): ==, !=,
+    hash, set membership and clone() must see the difference, and an independently built copy must be
+    equal.  A RecursionError (the interpreter's limit) is not an answer: skipped."""
+    from .c09 import deep_formula, to_lib_iter, flatten_obj, flatten_tuple
+    logic, shape, k = inp['logic'], inp['shape'], inp['k']
+    L = fm.lang(logic)
+    ta = deep_formula(logic, shape, k)
+    tb = deep_formula(logic, shape, k, leaf=('ap', 'r'))
+    if shape.startswith('wide-'):
+        # one wide node: the variation is an operand in the MIDDLE
+        mid = len(ta) // 2
+        tb = ta[:mid] + (ta[1],) + ta[mid + 1:]
+    tc = deep_formula(logic, shape, k - 1)
+    try:
+        a, a2, b, c = to_lib_iter(ta, L), to_lib_iter(ta, L), to_lib_iter(tb, L), to_lib_iter(tc, L)
+        if not (a == a2) or not (a2 == a) or (a != a2):
+            return Failure('deep', inp, 'independently built copies are equal', 'a == a2 is False')
+        if hash(a) != hash(a2):
+            return Failure('deep', inp, 'equal hashes for equal formulas', '%d vs %d' % (hash(a), hash(a2)))
+        for what, x in (('innermost leaf', b), ('one level less', c)):
+            if (a == x) or (x == a) or not (a != x) or not (x != a):
+                return Failure('deep', inp, 'formulas differing in the %s are unequal' % what,
+                               'a == x: %s, x == a: %s, a != x: %s' % (a == x, x == a, a != x))
+            if len(set([a, x])) != 2 or x in set([a]) or len({a: 1, x: 2}) != 2:
+                return Failure('deep', inp, 'formulas differing in the %s are different keys' % what, 'they collide')
+        cl = a.clone()
+        if flatten_obj(cl) != flatten_tuple(ta):
+            return Failure('deep', inp, 'clone has the same tree', 'another tree')
+        if not (cl == a) or hash(cl) != hash(a) or (cl == b):
+            return Failure('deep', inp, 'clone == original, != a deep variation', 'broken')
+        if flatten_obj(a) != flatten_tuple(ta):
+            return Failure('deep', inp, 'original unchanged', 'changed')
+    except RecursionError:
+        return 'recursion'
+    except core.HarnessError:
+        raise
+    except Exception as e:
+        return Failure('deep', inp, 'no exception', 'raised %s: %s' % (type(e).__name__, str(e)[:200]))
+    return None
+
+
+def deep_shard(st, shard, nshards, payload):
+    from .c09 import SHAPES
+    i = -1
+    for logic in LOGICS:
+        for shape in SHAPES:
+            for k in payload['ks']:
+                i += 1
+                if i % nshards != shard:
+                    continue
+                inp = {'logic': logic, 'shape': shape, 'k': k}
+                r = check_deep(inp)
+                if r == 'recursion':
+                    st.bump('nesting: beyond the recursion limit (skipped)')
+                    continue
+                st.evaluations += 1
+                st.nontrivial += 1
+                st.bump('nesting >= %d' % (50 * (k // 50)))
+                if k == 40:
+                    st.sample(inp, cls='nesting-' + shape)
+                if r is not None:
+                    if st.failure is None:
+                        st.failure = r
+                    return
 
 
 def enum_shard(st, shard, nshards, payload):
@@ -356,6 +424,13 @@ def run(ctx):
             return
     f = core.run_sharded(ctx, enum_shard, {'k': 2, 'atomsets': atomsets, 'block': ctx.pick(64, 400),
                                            'deep_stride': ctx.pick(11, 2)})
+    if f is not None:
+        ctx.violation(f)
+        return
+
+    ks = ctx.pick([6, 17, 40, 90, 140], [4, 6, 9, 13, 17, 25, 40, 60, 90, 120, 140, 200, 280])
+    ctx.scopes.append('nesting: 11 chain/fold/wide shapes per logic at nesting %s: a copy, a variation of the innermost leaf, one level less' % ks)
+    f = core.run_sharded(ctx, deep_shard, {'ks': ks})
     if f is not None:
         ctx.violation(f)
         return
